@@ -139,6 +139,7 @@ type labAction struct {
 	deliver int           // number of copies to deliver now
 	delay   time.Duration // deliver after this delay instead of now (one copy)
 	hold    bool          // keep until the next datagram of the same direction was handled
+	keep    bool          // leave the datagram pending (neither delivered nor dropped): the driver decides later
 }
 
 type labNet struct {
@@ -260,7 +261,7 @@ func (n *labNet) applyAuto(d *labDgram, a labAction) {
 	}
 	n.mu.Unlock()
 	switch {
-	case a.hold:
+	case a.hold, a.keep:
 	case a.delay > 0:
 		time.AfterFunc(a.delay, func() { n.Deliver(d.dir, d.idx) })
 	case a.deliver == 0:
